@@ -406,6 +406,10 @@ func (c *Cluster) hListOffsets(b *Broker, r *Request, act *Action) map[string]an
 				resp["Offset"] = p.LogStart
 			case -1:
 				resp["Offset"] = p.End
+				// read_committed (ListOffsets v2+): the end of the log for such a consumer is the last stable offset
+				if r.Version >= 2 && i64(r.Body, "IsolationLevel") == 1 && p.OpenTxnFrom > 0 && p.OpenTxnFrom < p.End {
+					resp["Offset"] = p.OpenTxnFrom
+				}
 			default:
 				o, t := OffsetForTime(p, ts)
 				resp["Offset"], resp["Timestamp"] = o, t
